@@ -128,6 +128,8 @@ func runC02(c *Ctx) {
 	c.Rule("R2.2", 4, "epsilon's value is not a member of any rune set fed to the automaton")
 	c.Rule("R2.3", 6, "quantifier expansion generates the documented repetition counts")
 	c.Rule("R2.4", 3, "regexToDFA: Parse -> ToDFA -> language-preserving steps, error returned")
+	c.Rule("R2.5", 20, "the combinator grammar equals the documented pattern grammar rule by rule")
+	checkRegexGrammarDocs(c, "R2.5")
 
 	classes, cpos, pp := evalRuneClasses(c, "R2.1")
 	if classes == nil {
@@ -226,6 +228,20 @@ func runC02(c *Ctx) {
 		c.Lost("R2.3", "the NFA quantifier function")
 	}
 	checkPipeline(c)
+	if sp := c.Pkg("internal/ebnf/parser/spec"); sp != nil {
+		if fd := FuncDecl(sp, "Spec", "DFA"); fd != nil {
+			if fn := c.SSAFunc(sp, fd); fn != nil {
+				var fns []*ssa.Function
+				fns = append(fns, fn)
+				allCalls(fn, func(call ssa.CallInstruction) {
+					if callee := call.Common().StaticCallee(); callee != nil && callee.Pkg == fn.Pkg && callee != fn {
+						fns = append(fns, callee)
+					}
+				})
+				checkPatternRoute(c, "R2.4", fns...)
+			}
+		}
+	}
 }
 
 func findQuantifier(p *packages.Package) *ast.FuncDecl {
